@@ -112,6 +112,9 @@ func ByteStreamConsumer(opts ...byteStreamOpt) Consumer {
 			}
 
 			v := reflect.Indirect(reflect.ValueOf(data))
+			if !v.IsValid() {
+				return errors.New("destination must not be a nil pointer")
+			}
 			t := v.Type()
 
 			switch {
@@ -194,6 +197,9 @@ func ByteStreamProducer(opts ...byteStreamOpt) Producer {
 
 		default:
 			v := reflect.Indirect(reflect.ValueOf(data))
+			if !v.IsValid() {
+				return fmt.Errorf("nil pointer (%T) is not supported by the ByteStreamProducer", data)
+			}
 			t := v.Type()
 
 			switch {
